@@ -52,6 +52,10 @@ class RayMeshIntersector:
         locations : (h, 3) float
           [optional] Position of intersection in space
         """
+        # the broad phase pads rays by a distance along the direction
+        # vector so the direction has to be a unit vector
+        ray_directions = util.unitize(np.asanyarray(ray_directions, dtype=np.float64))
+
         (index_tri, index_ray, locations) = ray_triangle_id(
             triangles=self.mesh.triangles,
             ray_origins=ray_origins,
